@@ -363,6 +363,9 @@ func checkC10(c *Check) {
 			{"module imported twice", map[string][][]string{"A": {{"B"}, {"B"}}, "B": nil}, "A"},
 			{"directory import A→{B,C}, C→B", map[string][][]string{"A": {{"C", "B"}}, "C": {{"B"}}, "B": nil}, "A"},
 			{"siblings depend on each other A→{B,C}, B→C", map[string][][]string{"A": {{"B"}, {"C"}}, "B": {{"C"}}, "C": nil}, "A"},
+			// a statement that starts with "*" is a directory import (IsDirectoryImport), whatever the number of modules found
+			{"directory import inside an imported module A→B, B→dir{C,D}", map[string][][]string{"A": {{"B"}}, "B": {{"*", "C", "D"}}, "C": nil, "D": nil}, "A"},
+			{"directory with one module A→B, B→dir{C}", map[string][][]string{"A": {{"B"}}, "B": {{"*", "C"}}, "C": nil}, "A"},
 		}
 		var bad []string
 		und := ""
@@ -386,9 +389,15 @@ func checkC10(c *Check) {
 				for _, st := range g.edges[n] {
 					is := newObj("ast.ImportStmt")
 					ms := SliceV{}
+					dir := len(st) > 1
 					for _, t := range st {
+						if t == "*" {
+							dir = true
+							continue
+						}
 						ms.Elems = append(ms.Elems, mods[t])
 					}
+					is.set("IsDirectoryImport", boolV(dir))
 					is.set("Modules", ms)
 					imps.Elems = append(imps.Elems, is)
 				}
@@ -432,6 +441,9 @@ func checkC10(c *Check) {
 				}
 				for _, st := range g.edges[n] {
 					for _, t := range st {
+						if t == "*" {
+							continue
+						}
 						if pt, ok := pos[t]; ok && pt > pos[n] {
 							bad = append(bad, fmt.Sprintf("%s: %s is visited before %s, which it imports (%v)", g.name, n, t, order))
 						}
